@@ -170,12 +170,22 @@ def build_classes():
             """teach this stack about `other` the way an application does on an
             I-Am: DeviceInfoCache.iam_device_info(IAmRequest).  Returns the record
             (None on a tree whose cache does not store new records)."""
-            from bacpypes.apdu import IAmRequest
-            iam = IAmRequest(iAmDeviceIdentifier=("device", other.devid),
-                             maxAPDULengthAccepted=other.device.maxApduLengthAccepted,
-                             segmentationSupported=other.device.segmentationSupported,
-                             vendorID=999)
-            iam.pduSource = other.address
+            from bacpypes.apdu import IAmRequest, APDU as _APDU, UnconfirmedRequestPDU as _URP
+            from bacpypes.pdu import PDU as _PDU
+            # the I-Am as OCTETS, encoded here from the standard's numbers (clause 21:
+            # segmented-both 0, segmented-transmit 1, segmented-receive 2, no-segmentation 3)
+            # and decoded by the library: what a real peer's announcement goes through
+            seg = {"segmentedBoth": 0, "segmentedTransmit": 1, "segmentedReceive": 2,
+                   "noSegmentation": 3}[other.device.segmentationSupported]
+            def _uns(tagno, v):
+                n = max(1, (int(v).bit_length() + 7) // 8)
+                return bytes([(tagno << 4) | n]) + int(v).to_bytes(n, "big")
+            raw = (bytes([0x10, 0x00, 0xC4]) + ((8 << 22) | other.devid).to_bytes(4, "big")
+                   + _uns(2, other.device.maxApduLengthAccepted) + bytes([0x91, seg]) + _uns(2, 999))
+            x = _APDU()
+            x.decode(_PDU(raw, source=other.address, destination=self.address))
+            iam = IAmRequest()
+            iam.decode(x)
             self.app.deviceInfoCache.iam_device_info(iam)
             info = self.app.deviceInfoCache.get_device_info(other.address)
             if info is not None:
